@@ -492,9 +492,8 @@ impl Family for DiagnosticSpans {
                 }
                 // both ends lie on their lines: a column is at most one past the last character of its row
                 obligations += 1;
-                // (the carriage return of a CRLF ending is a character of its row: slicec's doc-comment lines keep it)
-                let crlf = tr.text.contains("\r\n");
-                let width = |row: usize| lines.get(row - 1).map_or(0, |l| l.chars().count() + crlf as usize);
+                // (the carriage return of a CRLF ending is not a character of its row)
+                let width = |row: usize| lines.get(row - 1).map_or(0, |l| l.chars().count());
                 if s.col > width(s.row) + 1 || t.col > width(t.row) + 1 {
                     out.violate(
                         format!("c09/diagnostic/{}/{}-column-beyond-the-end-of-its-line", d.code, if what == "diagnostic" { "span" } else { "note-span" }),
